@@ -58,6 +58,7 @@ var probeExports = []struct {
 	{"self", false, true}, {"calli", false, false}, {"callg", false, false}, {"gnull", false, true},
 	{"call0", true, false}, {"call1", true, false}, {"isnull0", true, true}, {"isnull1", true, true},
 	{"msize", false, true}, {"xsize", false, false}, {"mload", true, true}, {"xload", true, false},
+	{"xtrap", false, false},
 }
 
 // memFns are the state-changing memory/segment exports (step "mem"): name -> number of arguments.
@@ -80,7 +81,9 @@ func buildModule(s modSpec) []byte {
 	m := &wasmenc.Module{}
 	tI := m.AddType(nil, []byte{i32}) // type 0: () -> i32, the type of every callable reference
 	_ = tI
+	m.ModuleName = fmt.Sprintf("m%d", s.ID) // stack traces name frames "m<ID>.<export name>"
 	block := m.ImportFunc("host", "block", nil, nil)
+	boom := m.ImportFunc("host", "boom", nil, nil) // host function that panics
 	hasImp := s.ImpFrom != ""
 	var imp0 uint32
 	if hasImp {
@@ -97,7 +100,9 @@ func buildModule(s modSpec) []byte {
 		{"tinit", []byte{i32}, nil}, {"edrop", nil, nil},
 	}
 	impMem := map[string]uint32{}
+	var impTrap uint32
 	if hasImp {
+		impTrap = m.ImportFunc(s.ImpFrom, "xtrap", nil, []byte{i32})
 		for _, sg := range memSigs {
 			impMem[sg.name] = m.ImportFunc(s.ImpFrom, sg.name, sg.p, sg.r)
 		}
@@ -144,14 +149,32 @@ func buildModule(s modSpec) []byte {
 	if hasImp {
 		third = imp0
 	}
-	exp := func(name string, idx uint32) { m.ExportFunc(name, idx) }
+	exp := func(name string, idx uint32) {
+		m.ExportFunc(name, idx)
+		m.Funcs[idx-m.NumImportedFuncs()].Name = name
+	}
 	exp("f0", f0)
 	exp("f1", f1)
 	exp("set_tag", m.AddFunc([]byte{i32}, nil, nil, wasmenc.NewB().LocalGet(0).GlobalSet(gTag).Bytes()))
-	// handout(k): 0 -> ref.func f0, 1 -> ref.func f1, else -> ref.func imp0 (or f0 without import)
+	// ftrap always traps, how depends on tag&3: unreachable, integer divide by zero, out of
+	// bounds load, panic of a host function
+	ftrap := m.AddFunc(nil, []byte{i32}, []byte{i32}, wasmenc.NewB().
+		GlobalGet(gTag).I32Const(3).Raw(wasmenc.OpI32And).LocalTee(0).Raw(wasmenc.OpI32Eqz).If().Unreachable().End().
+		LocalGet(0).I32Const(1).Raw(wasmenc.OpI32Eq).If().I32Const(1).I32Const(0).Raw(wasmenc.OpI32DivU).Return().End().
+		LocalGet(0).I32Const(2).Raw(wasmenc.OpI32Eq).If().I32Const(0x7ffffff0).Mem(wasmenc.OpI32Load, 2, 0).Return().End().
+		Call(boom).I32Const(0).Bytes())
+	exp("ftrap", ftrap)
+	// xtrap: the trapping function at the end of the chain of function imports (import of an import ...)
+	xt := ftrap
+	if hasImp {
+		xt = impTrap
+	}
+	exp("xtrap", m.AddFunc(nil, []byte{i32}, nil, wasmenc.NewB().Call(xt).Bytes()))
+	// handout(k): 0 -> ref.func f0, 1 -> ref.func f1, 3 -> ref.func ftrap, else -> ref.func imp0 (or f0 without import)
 	exp("handout", m.AddFunc([]byte{i32}, []byte{fr}, nil, wasmenc.NewB().
 		LocalGet(0).Raw(wasmenc.OpI32Eqz).If().RefFunc(f0).Return().End().
 		LocalGet(0).I32Const(1).Raw(wasmenc.OpI32Eq).If().RefFunc(f1).Return().End().
+		LocalGet(0).I32Const(3).Raw(wasmenc.OpI32Eq).If().RefFunc(ftrap).Return().End().
 		RefFunc(third).Bytes()))
 	exp("handout_slot", m.AddFunc([]byte{i32, i32}, []byte{fr}, nil, wasmenc.NewB().
 		LocalGet(0).Raw(wasmenc.OpI32Eqz).If().LocalGet(1).TableGet(0).Return().End().
@@ -216,7 +239,7 @@ func buildModule(s modSpec) []byte {
 	if s.ExpGlob {
 		m.Exports = append(m.Exports, wasmenc.Export{Name: "g", Kind: wasmenc.KGlobal, Idx: gG})
 	}
-	decl := []uint32{f0, f1}
+	decl := []uint32{f0, f1, ftrap}
 	if hasImp {
 		decl = append(decl, imp0)
 	}
